@@ -469,6 +469,8 @@ def worker_init():
 
 
 def _obj_tol(iface, kind):
+    if iface == 'eco' and kind.startswith('MI'):
+        return 1e-3       # ECOS_BB stops at its default gap (observed 1.2e-4 relative on a 2-variable MILP)
     if iface == 'eco':
         return 1e-5
     if iface == 'grb' and kind not in ('LP', 'MILP'):
